@@ -253,6 +253,10 @@ def run(ctx):
     from .c04 import rule_pipeline
     rule_pipeline(ctx, mir, rid="R05.11")
 
+    # ------------------------------------------------------------------ R05.12 (shared with C16 R16.3)
+    from .c16 import rule_ns_of_tag
+    rule_ns_of_tag(ctx, mir, rid="R05.12")
+
     ctx.not_decided += ["exactly-once delivery over all open/close sequences (needs the selector VM's run-time behaviour)", "text flushed before a tag is reported is rule R02.4 (C02)"]
     return ("Bookkeeping clauses of scoped dispatch read from the expanded syntax tree and MIR: balance and independence of handler activation, "
             "the kind/flag/token table across four functions, registration and iteration order, one-shot consumption of element/end-tag/end handlers.")
